@@ -5,43 +5,21 @@ From Coq Require Import Sorting.Sorted.
 Local Open Scope N_scope.
 
 (* ------------------------------------------------------------------ exactness *)
-Lemma Expected_mono od (ex1 ex2 : str -> bool) field p :
-  (ex1 p = true -> ex2 p = true) -> Expected od ex1 field p -> Expected od ex2 field p.
-Proof.
-  intros H (names & L & P & A & E). exists names. repeat split; auto.
-Qed.
-
-Lemma glob_exact_l t cwd field p : In p (glob_paths t cwd field) <-> ExpectedF t cwd field p.
-Proof. unfold glob_paths, ExpectedF. rewrite in_sort_strs. apply search_expected. Qed.
+Lemma glob_exact_l t cwd field p : In p (glob_paths t cwd field) <-> ExpectedL t cwd field p.
+Proof. unfold glob_paths, ExpectedL. rewrite in_sort_strs. apply search_expected. Qed.
 
 Lemma glob_sound_l t cwd field p : In p (glob_paths t cwd field) -> ExpectedL t cwd field p.
-Proof.
-  intros H. apply glob_exact_l in H. revert H. apply Expected_mono. apply fs_stat_lstat.
-Qed.
+Proof. apply glob_exact_l. Qed.
 
-Lemma glob_complete_l t cwd field p :
-  ExpectedL t cwd field p ->
-  last_is_pat (split_slash field) = true \/ fs_stat t cwd p = true ->
-  In p (glob_paths t cwd field).
-Proof.
-  intros (names & L & P & A & E) H. apply glob_exact_l. exists names. repeat split; auto.
-  intros Hl. destruct H as [H|H]; [congruence | exact H].
-Qed.
-
-Lemma ExpectedL_F t cwd field p :
-  last_is_pat (split_slash field) = true \/ links_resolve t cwd ->
-  ExpectedL t cwd field p -> ExpectedF t cwd field p.
-Proof.
-  intros H (names & L & P & A & E). exists names. repeat split; auto.
-  intros Hl. destruct H as [H|H]; [congruence | apply H; auto].
-Qed.
+Lemma glob_complete_l t cwd field p : ExpectedL t cwd field p -> In p (glob_paths t cwd field).
+Proof. apply glob_exact_l. Qed.
 
 (* ------------------------------------------------------------------ order *)
 Lemma glob_sorted_nodup_l t cwd field :
   wf_fs t = true ->
   Sorted (fun a b => str_ltb a b = true) (glob_paths t cwd field) /\ NoDup (glob_paths t cwd field).
 Proof.
-  intros Hwf. pose proof (search_nodup _ (fs_stat t cwd) (fs_listing_ok t cwd Hwf) (split_slash field) []) as H.
+  intros Hwf. pose proof (search_nodup _ (fs_lstat t cwd) (fs_listing_ok t cwd Hwf) (split_slash field) []) as H.
   unfold glob_paths. split; [apply sort_strs_sorted | apply sort_strs_nodup]; exact H.
 Qed.
 
@@ -222,7 +200,7 @@ Proof.
   assert (field_supported field = true) as ->.
   { unfold field_supported. apply forallb_forall. intros c Hc. rewrite (Hl c Hc). reflexivity. }
   cbn [negb]. unfold glob_paths.
-  destruct (search_all_literal (fs_opendir t cwd) (fs_stat t cwd) (split_slash field) [] Hl) as [E|E]; rewrite E.
+  destruct (search_all_literal (fs_opendir t cwd) (fs_lstat t cwd) (split_slash field) [] Hl) as [E|E]; rewrite E.
   - reflexivity.
   - cbn [app]. rewrite join_unquote_split by exact Hs. reflexivity.
 Qed.
@@ -231,9 +209,9 @@ Qed.
 Lemma glob_fallback_l t cwd field :
   glob_model t cwd true field = GFields [unquote field] /\
   (field_supported field = true ->
-   (forall p, ~ ExpectedF t cwd field p) -> glob_model t cwd false field = GFields [unquote field]) /\
+   (forall p, ~ ExpectedL t cwd field p) -> glob_model t cwd false field = GFields [unquote field]) /\
   (field_supported field = true ->
-   forall p, ExpectedF t cwd field p ->
+   forall p, ExpectedL t cwd field p ->
              glob_model t cwd false field = GFields (glob_paths t cwd field) /\ In p (glob_paths t cwd field)).
 Proof.
   split; [reflexivity|]. split.
@@ -354,17 +332,14 @@ Proof. apply (list_eqb_spec str_eqb str_eqb_eq). reflexivity. Qed.
 
 Lemma oracle_accepts_model_l t cwd noglob field :
   wf_fs t = true -> field_supported field = true ->
-  last_is_pat (split_slash field) = true \/ links_resolve t cwd ->
   fs_oracle t cwd noglob field (glob_model t cwd noglob field) = None.
 Proof.
-  intros Hwf Hs Hag. unfold fs_oracle, oracle, glob_model.
+  intros Hwf Hs. unfold fs_oracle, oracle, glob_model.
   destruct noglob; [rewrite strs_eqb_refl; reflexivity|].
   rewrite Hs. cbn [negb].
   assert (forall p, In p (glob_paths t cwd field) <->
                     In p (spec_paths (fs_opendir t cwd) (fs_lstat t cwd) (fs_universe t) field)) as Heq.
-  { intros p. rewrite spec_paths_correct_l, glob_exact_l. split.
-    - apply Expected_mono, fs_stat_lstat.
-    - apply ExpectedL_F. exact Hag. }
+  { intros p. rewrite spec_paths_correct_l, glob_exact_l. tauto. }
   destruct (glob_sorted_nodup_l t cwd field Hwf) as [Hsorted _].
   destruct (glob_paths t cwd field) as [|g gs] eqn:Eg;
     destruct (spec_paths (fs_opendir t cwd) (fs_lstat t cwd) (fs_universe t) field) as [|e es] eqn:Ee.
@@ -383,21 +358,18 @@ Proof.
     cbn [negb]. apply strictly_sorted_spec in Hsorted. rewrite Hsorted. reflexivity.
 Qed.
 
-(* ------------------------------------------------------------------ the one incompleteness *)
-
-Lemma glob_complete_refuted_l :
-  exists t cwd field p,
-    wf_fs t = true /\ wf_cwd cwd = true /\ ExpectedL t cwd field p /\ ~ In p (glob_paths t cwd field).
+(* ------------------------------------------------------------------ dangling links *)
+(* sub/dl -> zz cannot be followed, yet it is an existing pathname: it is found
+   whether its name is written out (*/dl) or matched (sub/d*) *)
+Lemma dangling_found_both_ways_l :
+  fs_stat dangling_tree [] dangling_path = false /\
+  ExpectedL dangling_tree [] dangling_field dangling_path /\
+  glob_paths dangling_tree [] dangling_field = [dangling_path] /\
+  glob_paths dangling_tree [] (soft_field [115; 117; 98; 47; 100; 42]) = [dangling_path].
 Proof.
-  exists dangling_tree, [], dangling_field, dangling_path. split; [reflexivity|]. split; [vm_compute; reflexivity|]. split.
-  - apply spec_paths_correct_l. vm_compute. left; reflexivity.
-  - vm_compute. intros [].
+  split; [vm_compute; reflexivity|]. split; [|split; vm_compute; reflexivity].
+  apply spec_paths_correct_l. vm_compute. left; reflexivity.
 Qed.
-
-(* ... although the same link is found when the last component is a pattern *)
-Lemma dangling_found_by_pattern_l :
-  In dangling_path (glob_paths dangling_tree [] (soft_field [115; 117; 98; 47; 100; 42])).
-Proof. vm_compute. left; reflexivity. Qed.
 
 (* ------------------------------------------------------------------ strong sortedness *)
 Lemma glob_strongly_sorted_l t cwd field :
